@@ -148,6 +148,7 @@ def alphabet(n, names):
         ops.append(("set_data", extra, None, False))
         ops.append(("data_eq", extra))
     ops.append(("set_data", 3, "equal", False))
+    ops.append(("append_shared2",))
     ops.append(("set_data", 0, "short", False))
     ops.append(("set_data", 0, "equal", False))
     ops.append(("set_data", 0, "dups", False))
@@ -223,6 +224,10 @@ def apply_model(model, op, step, keys):
         if not (-n <= ix < n):
             raise Undefined()
         m[ix] = rec(op[2], step, unit="RU", value="RV", descr="replaced")
+    elif kind == "append_shared2":
+        # the caller hands the SAME array to two curves: later edits through lasio must rebind, never write through
+        m.append(rec("S1", step))
+        m.append(rec("S2", step))
     elif kind == "set_arr":
         if op[1] == "new" and "N" in keys:
             m[first("N")]["arr"] = tuple(arr_for(step).tolist())
@@ -311,6 +316,10 @@ def apply_impl(las, op, step):
             las.update_curve(ix=ix, **{f: val})
     elif kind == "replace":
         las.replace_curve_item(res_ix(op[1], n), CurveItem(op[2], "RU", "RV", "replaced", arr_for(step)))
+    elif kind == "append_shared2":
+        shared = arr_for(step)
+        las.append_curve("S1", shared)
+        las.append_curve("S2", shared)
     elif kind == "set_arr":
         las["N" if op[1] == "new" else keys[op[1]]] = arr_for(step)
     elif kind == "set_item":
@@ -475,6 +484,16 @@ def build(root, history):
     return objs, models
 
 
+def expected_numbering(names, ci):
+    """Session names lasio assigns when it numbers a whole section: unique names bare, duplicates :1..:n in order."""
+    useful = ["UNKNOWN" if not n.strip() else n for n in names]
+    out = []
+    for p, u in enumerate(useful):
+        grp = [q for q, v in enumerate(useful) if (v.upper() == u.upper() if ci else v == u)]
+        out.append(u if len(grp) == 1 else "%s:%d" % (u, grp.index(p) + 1))
+    return out
+
+
 def step_check(root, history, target, op):
     """Execute history then (target, op); returns (violations, new_state_key or None)."""
     vio = []
@@ -496,6 +515,7 @@ def step_check(root, history, target, op):
     if defined and not set_item_defined(keys, op):
         # well-formedness of the call itself is not given: outcome unspecified
         return [], None
+    model_before = models[target]
     exc = None
     try:
         apply_impl(las, op, step)
@@ -516,6 +536,12 @@ def step_check(root, history, target, op):
     bad = compare(las, newm)
     for what, exp, got in bad[:3]:
         vio.append(viol("model-mismatch", what, history, target, op, root, exp, got))
+    if not bad and op[0] in ("set_data", "data_eq") and len(newm):
+        # set_data re-assigns every name and re-numbers the whole section: keys() follow from the names alone
+        # (an empty array is a no-op, but then the curve list is empty too)
+        want = expected_numbering([r["name"] for r in newm], bool(las.curves.mnemonic_transforms))
+        if las.keys() != want:
+            vio.append(viol("keys-after-set_data", "keys()", history, target, op, root, want, las.keys()))
     for i, snap in others:
         now = snapshot(objs[i])
         if now != snap:
